@@ -152,6 +152,12 @@ def _ar_fn(spec):
     if kind == "sat":
         amax, R0 = spec[1:]
         return lambda R: 1 + (amax - 1) * np.asarray(R) / (np.asarray(R) + R0)
+    if kind == "ramp":          # spherical while small: exactly 1 up to R0, then growing (the root may sit exactly on the lower end of the search interval)
+        R0 = spec[1]
+        return lambda R: np.maximum(1.0, np.asarray(R) / R0)
+    if kind == "below1":        # not clamped by the function: values below 1 are documented to be treated as 1
+        a0, slope, R0 = spec[1:]
+        return lambda R: a0 + slope * np.asarray(R) / R0
     raise ValueError(kind)
 
 
@@ -171,8 +177,8 @@ def check_rcrit(case):
             out.fail("rcrit_scalar", "%s constant aspect ratio: findRcrit returned %r, residual %r" % (shape, R, res(R)))
         out.nt(shape != "sphere" and case["arfn"][1] > 1.001)
         return out
-    if fmin * fmax < 0:
-        out.label("bracketed")
+    if fmin * fmax <= 0:       # closed interval: a residual of exactly 0 at an end point is a root, too
+        out.label("bracketed" if fmin * fmax < 0 else "root_on_interval_end")
         out.nt(shape != "sphere")
         if not (abs(res(R)) <= sf.tol * (1 + 1e-9)):
             out.fail("rcrit_not_root", "%s %r: root bracketed on [%r,%r] (residuals %r,%r) but findRcrit returned %r with residual %r > tol %r" % (shape, case["arfn"], Rs, Rmax, fmin, fmax, R, res(R), sf.tol))
@@ -240,7 +246,11 @@ def check_setter_history(case):
 
 @st.composite
 def _arspec(draw, R0):
-    kind = draw(st.sampled_from(["const", "const", "linear", "power", "sat"]))
+    kind = draw(st.sampled_from(["const", "const", "linear", "power", "sat", "ramp", "below1"]))
+    if kind == "ramp":
+        return ["ramp", R0 * draw(st.sampled_from([0.3, 1.0, 1.0, 4.0, 30.0]))]
+    if kind == "below1":
+        return ["below1", draw(st.floats(0.2, 1.0)), draw(st.floats(0, 3)), R0]
     if kind == "const":
         return ["const", draw(st.one_of(st.just(1.0), st.floats(1, 50)))]
     if kind == "linear":
@@ -276,9 +286,13 @@ def _atone(draw):
 
 @st.composite
 def _rcrit(draw):
-    kind = draw(st.sampled_from(["const", "linear", "power", "sat"]))
+    kind = draw(st.sampled_from(["const", "linear", "power", "sat", "ramp", "below1"]))
     R0 = 10 ** draw(st.floats(-10, -8))
-    if kind == "const":
+    if kind == "ramp":
+        spec = ["ramp", R0 * draw(st.sampled_from([0.3, 1.0, 1.0, 4.0, 30.0]))]
+    elif kind == "below1":
+        spec = ["below1", draw(st.floats(0.2, 1.0)), draw(st.floats(0, 3)), R0]
+    elif kind == "const":
         spec = ["const", draw(st.one_of(st.just(1.0), st.floats(1, 50)))]
     elif kind == "linear":
         spec = ["linear", draw(st.floats(1, 5)), draw(st.floats(0, 3)), R0]
